@@ -8,7 +8,8 @@ Rules
               and, if s is a role, (r,f',t) for the role taker r and every field f' of type(r) likewise
   inverse   : (s,f,t), I=D.get_inverse() => (t,fI,s) if type(t) has a field with descriptor exactly I,
               else (rt,fI,s) for t's role taker rt if type(rt) has such a field
-  transitive: (a,f,b),(b,f',c) with the same transitive descriptor class => (a,f',c)
+  transitive: (a,f,b),(b,f',c) with the same transitive descriptor class => (a,f,c): the derived fact is a fact of a,
+              so it lives in a's own field (f and f' differ when one descriptor class is attached to two classes)
 """
 
 
@@ -72,7 +73,7 @@ def closure(asserted, FIELDS, ROLE_TAKER_FIELD, transitive_base, inverse_base):
         if issubclass(D, transitive_base):
             for (a, f1, b) in list(facts):
                 if b == id(s) and f1 in [ff for ff, DD, _ in fields_of(type(objs[a]), FIELDS) if DD is D]:
-                    work.append((objs[a], f, t))
+                    work.append((objs[a], f1, t))
                 if a == id(t) and desc(objs[a], f1) is D:
-                    work.append((s, f1, objs[b]))
+                    work.append((s, f, objs[b]))
     return facts, objs
